@@ -29,7 +29,14 @@ CON = ("con",)  # the transport connection comes up, no Select.req yet (connecte
 CFG = ("cfg",)  # the application changes the configured establish-communications delay (public settings setter)
 RX13 = ("rx", 1, 13, 1, "in", None)
 RX13Z = ("rx", 1, 13, 1, "zero", None)  # system bytes 0x00000000
-DELAYS = [3, 17, 0, 10, 1, 25]
+DELAYS = [3, 0.8, 17, 0, 2.5, 10, 1, 25]
+ENSEL = ("ensel",)  # enable() on a transport that brings the link up (connected + selected) before enable() returns
+
+
+def setcfg(value, what="delay", via="settings"):
+    """the application sets a timer setting after construction: through the settings object it passed in, or through
+    `handler.settings`; what: delay (public property) | t3 (attribute of `settings.timeouts`)"""
+    return ("cfg", value, what, via)
 
 
 def init(delay, t3=None):
@@ -67,6 +74,8 @@ OTHER = [("rx", 1, 1, 1, "in", None), ("rx", 1, 1, 0, "in", None), ("rx", USER_C
 
 
 def letter_name(lt):
+    if lt[0] == "cfg" and len(lt) > 1:
+        return f"cfg({lt[2]}={lt[1]},{lt[3]})"
     if lt[0] == "init":
         return f"init(delay={lt[1]},t3={lt[2]})"
     if lt[0] != "rx":
@@ -128,10 +137,32 @@ class Run:
         timers_before = (id(m._wait_cra_timer), id(m._comm_delay_timer))
         if lt[0] == "init":
             token = "cfg"  # the settings were given to the constructor; for the model: nothing happens
-        elif lt == CFG:
-            self.ncfg = getattr(self, "ncfg", 0) + 1
-            rig.configured_delay = DELAYS[self.ncfg % len(DELAYS)]
-            rig.settings.establish_communication_timeout = rig.configured_delay
+        elif lt[0] == "cfg":
+            token = "cfg"
+            if lt == CFG:
+                self.ncfg = getattr(self, "ncfg", 0) + 1
+                value, what, via = DELAYS[self.ncfg % len(DELAYS)], "delay", ("settings" if self.ncfg % 2 else "handler")
+            else:
+                _, value, what, via = lt
+            target = rig.settings if via == "settings" else rig.h.settings
+            if what == "delay":
+                rig.configured_delay = value
+                target.establish_communication_timeout = value
+            else:
+                rig.configured_t3 = value
+                target.timeouts.t3 = value
+        elif lt == ENSEL:
+            rig.sync_enable = True
+            try:
+                rig.bounded(rig.h.enable, "enable()")
+                token = "en+sel"
+            except Stuck:
+                raise
+            except Exception as exc:  # noqa: BLE001  (not DISABLED: enable() raises before the transport is touched)
+                info["raised"] = type(exc).__name__
+                token = "en"
+            finally:
+                rig.sync_enable = False
         elif lt == EN:
             try:
                 rig.bounded(rig.h.enable, "enable()")
@@ -337,6 +368,10 @@ def _oracle(steps):
         for key, what in (("delay_armed_with", "establish-communications delay"), ("t3_armed_with", "reply timeout T3")):
             if key in st["info"] and st["info"][key][0] != st["info"][key][1]:
                 bad.append(("wrong-timer-duration", f"the timer armed for the {what} runs {st['info'][key][0]} s, configured are {st['info'][key][1]} s", i))
+        # the link came up, selected, while the handler was being enabled: the attempt must start (S1F13 written, reply timer pending)
+        if lt == ENSEL and before == "DISABLED" and "raised" not in st["info"] and st["link_after"] and not st["link_before"] \
+                and not (after == "WAIT_CRA" and ids and st["t3_after"]):
+            bad.append(("no-attempt-after-enable", f"enable() on a transport that selects the link before it returns: no S1F13 was sent, state {after}", i))
         # clause 4: nothing is handed to the callbacks unless established
         if before != "COMMUNICATING":
             cbs = [o for o in outs if o[0] == "cb"]
@@ -447,6 +482,24 @@ def gen_histories(rng, tier, search):
             for fail in ([T3], [rx14("match", 1)], [rx14("match", "empty")]):
                 for tail in ([], [DLY], [DLY, T3], [CFG, DLY, T3], [LOST, DLY, SEL, T3]):
                     out.append((role, 0, [cfg, EN, SEL] + fail + tail, "exh-settings"))
+    # settings changed after construction through the public property (fractional values too), before enable / between attempts
+    for role in ("equipment", "host"):
+        for value in (0, 0.8, 1, 2.5, 10):
+            for via in ("settings", "handler"):
+                c = setcfg(value, "delay", via)
+                for hist in ([c, EN, SEL, T3], [EN, c, SEL, rx14("match", 1)], [EN, SEL, T3, c, DLY, rx14("match", 1)],
+                             [init(3), EN, SEL, T3, DLY, c, T3], [EN, SEL, c, rx14("match", "empty"), DLY]):
+                    out.append((role, 0, hist, "exh-settings"))
+        for value in (0, 0.5, 7):
+            for via in ("settings", "handler"):
+                c = setcfg(value, "t3", via)
+                for hist in ([c, EN, SEL], [EN, SEL, T3, c, DLY], [EN, c, SEL, T3, DLY]):
+                    out.append((role, 0, hist, "exh-settings"))
+    # a transport whose enable() brings the link up before it returns
+    for role in ("equipment", "host"):
+        for pre in ([], [EN, DIS], [EN, SEL, LOST, DIS], [CON], [EN, SEL, rx14("match", 0), DIS, LOST]):
+            for tail in ([], [rx14("match", 0)], [RX13], [T3, DLY], [ENSEL], [DIS, ENSEL], [LOST, SEL]):
+                out.append((role, 0, pre + [ENSEL] + tail, "exh-ensel"))
     # the equipment is brought ON-LINE (S1F17) before the link is lost / the handler is disabled
     for role in ("equipment", "host"):
         for est in ([rx14("match", 0)], [RX13]):
@@ -454,7 +507,7 @@ def gen_histories(rng, tier, search):
                 for end in ([LOST], [LOST, SEL], [DIS], [LOST, CON, DLY], [LOST, SEL, rx14("match", 0), S1F17, LOST]):
                     out.append((role, 0, [EN, SEL] + est + mid + end, "exh-online"))
     n_rand = 3000 if big else 500
-    weights = [CON] * 3 + [S1F17] + [EN] * 2 + [DIS] + [SEL] * 3 + [LOST] * 2 + [T3] * 3 + [DLY] * 3 + [RX13] * 2 + ["rx14"] * 5 + ["other"] * 3 + [CFG] * 2 + [RX13Z]
+    weights = [CON] * 3 + [S1F17] + [ENSEL] + [EN] * 2 + [DIS] + [SEL] * 3 + [LOST] * 2 + [T3] * 3 + [DLY] * 3 + [RX13] * 2 + ["rx14"] * 5 + ["other"] * 3 + [CFG] * 2 + [RX13Z]
     # the configured delay changes, then an attempt fails; an S1F13 with system bytes 0: all words of length <= 2 from three prefixes
     for role in ("equipment", "host"):
         for base in ([EN, SEL], [CFG, EN, SEL, T3, DLY], [EN, SEL, rx14("match", 0), CFG, LOST]):
